@@ -18,12 +18,16 @@ from harness.core import q, qlist, qmat, Case, guarded, ImplError
 C2PI = 6.2831853
 EPS = 2.0 ** -52
 XIS = [0.0, 0.02, 0.05, 0.3, 0.7, 0.99]
+# damping just below critical (0.995 < xi < 1): sqrt(1 - xi^2) is small, the closed forms divide by it
+XIS_NEAR = [0.999, 0.9999]
 RULE = ('correspondence cases = (entry point, xi, periods (optionally one leading 0), dt, record): hats, steps, sines, random integer/dyadic records, '
-        'windows of the shipped motion; lengths 2..400 (quick) / 1500 (thorough); 1..6 periods with 0.2 <= T/dt <= 2e4; xi in {0,.02,.05,.3,.7,.99}; '
+        'windows of the shipped motion; lengths 2..400 (quick) / 1500 (thorough); 1..6 periods with 0.2 <= T/dt <= 2e4; xi in {0,.02,.05,.3,.7,.99} and near-critical {.999,.9999}; '
         'entry points sdof.response_series, sdof.nigam_and_jennings_response, AccSignal.response_series (response_times passed or preset, default and explicit xi); '
+        'records stored as int32/int64/float32 and periods stored as a float32 array (values exactly representable; the model is given the same numbers as float64) at all three entry points; '
         'rows compared with the Q-model run on the implementation\'s own compute_a_and_b values, rtol 1e-9 of each row\'s peak (1e-13 with injected dyadic coefficients on integer records); '
         'the third-series relation and the T=0 row are also evaluated directly on the implementation outputs; '
-        'interval point checks: generated nj_* formulas at (xi, w, dt) vs the implementation floats, tolerance 1e-10*scale + 4096*eps*cancellation terms; '
+        'interval point checks: generated nj_* formulas at (xi, w, dt) vs the implementation floats (grid xi x T/dt incl. xi = .999, .9999 and random points incl. xi in (.995, .99995)), tolerance 1e-10*scale + 4096*eps*cancellation terms; '
+        'rounding-clause sweep (thorough tier / search) over the same xi incl. near-critical and T/dt incl. 6500 (w dt just below 1e-3); '
         'non-trivial = record not identically zero and at least one oscillator row')
 TRUSTED = [
     'Coq 8.16.1 kernel + vm_compute; Coquelicot (derivatives), Interval (point enclosures)',
@@ -214,6 +218,14 @@ def call_entry(entry, rec, dt, periods, xi):
     if entry == 'AccSignal.response_series[int record]':
         s = eqsig.AccSignal(rec.astype(np.int64), dt)
         return s.response_series(response_times=np.array(periods), xi=xi)
+    if entry in PERIOD_DTYPE_ENTRIES:
+        p32 = np.array(periods, dtype=np.float32)      # the caller passes as_float32_values(...): no rounding here
+        if entry == 'sdof.response_series[float32 periods]':
+            return sdof.response_series(rec, dt, p32, xi)
+        if entry == 'sdof.nigam_and_jennings_response[float32 periods]':
+            return sdof.nigam_and_jennings_response(rec, dt, p32, xi)
+        s = eqsig.AccSignal(rec, dt)
+        return s.response_series(response_times=p32, xi=xi)
     raise KeyError(entry)
 
 
@@ -221,6 +233,15 @@ ENTRIES = ['sdof.response_series', 'sdof.response_series[list]', 'sdof.nigam_and
            'AccSignal.response_series[arg]', 'AccSignal.response_series[preset,default xi]']
 # records stored with another dtype (digitiser counts, single precision): the response is that of the same numbers as float64
 DTYPE_ENTRIES = ['sdof.response_series[int32 record]', 'sdof.response_series[float32 record]', 'AccSignal.response_series[int record]']
+# periods stored in a single-precision array (every value exactly representable): the requested oscillators are those same
+# numbers, so the response is that of the float64 array with equal values
+PERIOD_DTYPE_ENTRIES = ['sdof.response_series[float32 periods]', 'sdof.nigam_and_jennings_response[float32 periods]',
+                        'AccSignal.response_series[arg, float32 periods]']
+
+
+def as_float32_values(periods):
+    """the nearest float32-representable values, as Python floats (what the model is given)"""
+    return [float(np.float32(P)) for P in periods]
 
 
 def mk_case(entry, rec, dt, periods, xi, cfs, out, rtol, klass, glob=False):
@@ -241,11 +262,18 @@ def point_goals(rng, tier):
         for r in ratios:
             dt = rng.choice([0.01, 0.005, 0.02, 0.25])
             pts.append((xi, C2PI / (r * dt), dt))
+    for xi in XIS_NEAR:      # near-critical damping
+        for r in ([0.5, 10.0, 2e3] if tier == 'quick' else ratios):
+            dt = rng.choice([0.01, 0.005, 0.02, 0.25])
+            pts.append((xi, C2PI / (r * dt), dt))
     n_rand = 20 if tier == 'quick' else 200
-    for _ in range(n_rand):
+    for k in range(n_rand):
         dt = rng.choice([0.01, 0.005, 0.0025, 0.02, rng.uniform(1e-3, 0.5)])
         r = 10 ** rng.uniform(math.log10(0.2), math.log10(2e4))
-        pts.append((rng.choice(XIS + [rng.uniform(0, 0.99)]), C2PI / (r * dt), dt))
+        xi = rng.choice(XIS + [rng.uniform(0, 0.99)])
+        if k % 5 == 4:
+            xi = rng.uniform(0.995, 0.99995)
+        pts.append((xi, C2PI / (r * dt), dt))
     goals, meta = [], []
     names = ['a11', 'a12', 'a21', 'a22', 'b11', 'b12', 'b21', 'b22']
     for xi, w, dt in pts:
@@ -310,13 +338,18 @@ def run(rep, rng, tier):
         dt = rng.choice([0.01, 0.005, 0.02, 0.25, rng.uniform(1e-3, 0.3)])
         lead0 = rng.random() < 0.35
         periods = gen_periods(rng, dt, lead0)
-        xi = rng.choice(XIS)
+        xi = rng.choice(XIS + XIS_NEAR)
         entry = ENTRIES[k % len(ENTRIES)]
         if entry.endswith('default xi]'):
             xi = 0.05
         if k % 7 == 6:
             entry = DTYPE_ENTRIES[(k // 7) % len(DTYPE_ENTRIES)]
             rec = np.round(rec * 8) if 'int' in entry else np.array(rec, dtype=np.float32).astype(float)
+        if k % 7 == 3:
+            entry = PERIOD_DTYPE_ENTRIES[(k // 7) % len(PERIOD_DTYPE_ENTRIES)]
+            periods = as_float32_values(periods)
+            if rng.random() < 0.4:     # small powers of two and halves, as in hand-written period lists
+                periods = ([0.0] if lead0 else []) + sorted(rng.sample([0.25, 0.5, 1.0, 1.5, 2.0, 4.0, 8.0], rng.randint(1, 4)))
         cfs = guarded(coeff_lists, xi, periods, dt)
         out = guarded(call_entry, entry, rec, dt, periods, xi)
         for r in (cfs, out):
@@ -363,8 +396,8 @@ def run(rep, rng, tier):
     if broken or tier == 'thorough':
         sweep = []
         pts = [(m[1], m[2], m[3]) for m in point_fail] if point_fail else []
-        for xi in XIS:
-            for r in ([0.2, 1.0, 10.0, 300.0, 2e4] if tier == 'quick' else [0.2, 0.5, 1.0, 3.0, 10.0, 50.0, 300.0, 2e3, 2e4]):
+        for xi in XIS + XIS_NEAR:
+            for r in ([0.2, 1.0, 10.0, 300.0, 6500.0, 2e4] if tier == 'quick' else [0.2, 0.5, 1.0, 3.0, 10.0, 50.0, 300.0, 2e3, 6500.0, 2e4]):
                 pts.append((xi, C2PI / (r * 0.01), 0.01))
         n_ok = 0
         for xi, w, dt in pts:
@@ -379,6 +412,29 @@ def run(rep, rng, tier):
         rep.extra['rounding_clause_reference_checks'] = n_ok
 
 
+STRICT_SITE = 'response_series[exactness, 2-sample record, w*dt < 1e-3, displacement relative to its own peak]'
+
+
+def strict_peak_witness(rep):
+    """the rounding clause read literally ("relative to the series peak") on the one family where it is known to fail on the
+    unchanged code: the response to a 2-sample record for w*dt just below 1e-3 and high damping, where the closed forms of
+    the load coefficients cancel (listed in known_findings.json; printed as KNOWN-FINDING while it persists)"""
+    from eqsig import sdof
+    for rec, dt, T, xi in (([0.0, 1.0], 0.01, 69.174, 0.99),):
+        r = guarded(sdof.response_series, np.array(rec), dt, np.array([T]), xi)
+        if isinstance(r, ImplError):
+            continue
+        u = np.array(r[0][0])
+        ru = np.array(reference_series(rec, dt, T, xi)[0])
+        err = float(np.max(np.abs(u - ru)) / np.max(np.abs(ru)))
+        b = rounding_bound(len(rec), dt, T)
+        rep.extra['strict_peak_witness'] = {'relative_error': err, 'bound': b}
+        if err > b:
+            rep.violation(STRICT_SITE, {'function': 'eqsig.sdof.response_series', 'args': {'values': rec, 'dt': dt, 'periods': [T], 'xi': xi},
+                                        'displacement_error_relative_to_max_abs_u': err, 'bound': b})
+
+
 def finish(rep):
+    strict_peak_witness(rep)
     return rep.finish(rule=RULE, trusted=TRUSTED, assumptions=['exact real arithmetic in the theorems; 0 < w, 0 < dt, 0 <= xi < 1'],
                       checker_cmd='translator/py2coq_scalar.py /repo -> coq/gen/Gen_sdof_coeffs.v; translator/py2coq_sdof_loop.py /repo -> coq/gen/Gen_sdof_loop.v; cd /verif/coq && make props/Prop_C01.vo; Print Assumptions per theorem; coqc coq/run/C01_ivl_*.v (interval goals); coqc coq/run/C01_check_case_*.v (vm_compute correspondence)')
